@@ -51,6 +51,7 @@ class Runner(object):
         self.ck, self.drv = ck, drv
         self.corr = []            # (what, case, real, model, tie)  correspondence breaks without failing input
         self.n = 0
+        self.ptr = 4
         import amoco.arch.x86.cpu_x86 as cpu_x86
         self.cpu_x86 = cpu_x86
 
@@ -96,6 +97,10 @@ class Runner(object):
                                 "correspondence (mmap.read over a segment extent)")
                     break
             for (a, n), mf in zip(fetch, model["fetch"]):
+                if mf and mf[0] == "ex" and mf[1] and (mf[1][0][2] != 0 or len(mf[1]) != self.ptr):
+                    # an address inside a bound slot / a slot partly overwritten by another one: not an instruction address
+                    ck.count("fetch.partial-slot-skipped")
+                    continue
                 rw = L.window(a, names, n)
                 if rw != mf:
                     ok = False
@@ -190,12 +195,19 @@ class Runner(object):
             ck.count("elf.no-os-loader.%s" % ("task" if L is not None else "none"))
             return
         ptr, top, loader = tgt
+        self.ptr = ptr
         names = R.Names()
         try:
             rel = O.elf_relocs_by_sections(data, e)
         except Exception:
             ck.count("elf.unmodelled.bad-symbol-index")
             return
+        try:
+            L = R.load(path or data, ps)
+        except Exception as ex:
+            self.broken("load_program-raised:elf", case, repr(ex), None, "load_program raised")
+            return
+        ml = L.maxlen() if L is not None else 16
         m = ps - 1
         L_ = [p for p in e.phdrs if p["type"] == O.PT_LOAD]
         ranges, fetch = [], []
@@ -206,21 +218,21 @@ class Runner(object):
             ranges.append([lo, n])
             if p["filesz"]:
                 for k in range(2):
-                    fetch.append([p["vaddr"] + r.randrange(0, p["filesz"]), 16])
-                fetch.append([p["vaddr"] + p["filesz"] - 1, 16])
+                    fetch.append([p["vaddr"] + r.randrange(0, p["filesz"]), ml])
+                fetch.append([p["vaddr"] + p["filesz"] - 1, ml])
+                fetch.append([max(0, p["vaddr"] - 2), ml])
         if L_:
-            fetch.append([e.entry, 16])
-        req = {"op": "load.elf", "fix": "repaired", "cfg": {"ps": ps, "ptr": ptr, "top": top, "aslr": False, "bare": False},
+            fetch.append([e.entry, ml])
+        for a, nm in rel[:3]:
+            fetch += [[a, ml], [max(0, a - 2), ml]]
+        arm = loader == "linux32/arm"
+        req = {"op": "load.elf", "fix": "repaired",
+               "cfg": {"ps": ps, "ptr": ptr, "top": top, "aslr": False, "bare": False, "thumb": arm},
                "file": data.hex(), "phdrs": [[p["type"], p["offset"], p["vaddr"], p["filesz"], p["memsz"]] for p in e.phdrs],
                "entry": e.entry, "relocs": [[a, names.id(nm)] for a, nm in rel], "ranges": ranges, "fetch": fetch}
         model = drv.ask(req)
         if model == "unmodelled" or "err" in model:
             self.broken("driver:elf", case, None, model, "driver")
-            return
-        try:
-            L = R.load(path or data, ps)
-        except Exception as ex:
-            self.broken("load_program-raised:elf", case, repr(ex), None, "load_program raised")
             return
         ck.count("elf.loaded" if L is not None else "elf.rejected")
         # what the independent reader says about the image
@@ -251,7 +263,9 @@ class Runner(object):
             else:
                 ck.count("elf.dynamic-table-agrees")
         facts = O.elf_facts(data, e, ptr, slots)
-        ok = self.compare("elf", loader, case, L, names, model, ranges, fetch, facts, e.entry, 8 * ptr, loadable,
+        # ARM ELF: an odd e_entry is a Thumb entry point at the even address
+        entry = (e.entry & ~1) if arm and e.entry < (1 << 32) else e.entry
+        ok = self.compare("elf", loader, case, L, names, model, ranges, fetch, facts, entry, 8 * ptr, loadable,
                           "Amoco.Loader.Props.elf_image")
         kinds = (meta or {}).get("kinds", [])
         nontrivial = loadable and (len(L_) > 1 or any(p["memsz"] > p["filesz"] for p in L_) or bool(slots))
@@ -275,14 +289,24 @@ class Runner(object):
             ck.count("pe.no-os-loader")
             return
         names = R.Names()
+        self.ptr = ptr
         imports = O.pe_imports(data, p)
+        try:
+            L = R.load(path or data, ps)
+        except Exception as ex:
+            self.broken("load_program-raised:pe", case, repr(ex), None, "load_program raised")
+            return
+        ml = L.maxlen() if L is not None else 16
         ranges, fetch = [], []
         r = rng("C15/fetch/%s" % tag)
         for s in p.sections[:8]:
             a = p.base + s["rva"]
             ranges.append([a - 3, min(max(s["vsize"], s["rawsize"], p.salign) + 6 + p.salign, RANGE_CAP)])
             if s["rawsize"] and s["ch"] != 0x800:
-                fetch.append([a + r.randrange(0, min(s["rawsize"], max(1, s["vsize"]))), 16])
+                fetch.append([a + r.randrange(0, min(s["rawsize"], max(1, s["vsize"]))), ml])
+        for a, nm in imports[:2]:
+            fetch += [[a, ml], [max(0, a - 3), ml]]
+        fetch.append([p.base + p.entry_rva, ml])
         req = {"op": "load.pe", "fix": "repaired", "cfg": {"ps": ps, "ptr": ptr, "top": top, "aslr": False, "bare": False},
                "file": data.hex(), "base": p.base, "salign": p.salign,
                "sections": [[s["rva"], s["vsize"], s["rawptr"], s["rawsize"], s["ch"] == 0x800] for s in p.sections],
@@ -292,19 +316,29 @@ class Runner(object):
         if model == "unmodelled" or "err" in model:
             self.broken("driver:pe", case, None, model, "driver")
             return
-        try:
-            L = R.load(path or data, ps)
-        except Exception as ex:
-            self.broken("load_program-raised:pe", case, repr(ex), None, "load_program raised")
+        if (L is None) != (model["task"] is None):
+            self.broken("accept/reject:pe", case, "task" if L else None, "task" if model["task"] else None,
+                        "correspondence (does the loader produce a task)")
             return
         if L is None:
-            ck.count("pe.rejected")
-            self.broken("accept/reject:pe", case, None, "task", "correspondence (does the loader produce a task)")
+            ck.count("pe.rejected")           # a section with Characteristics == IMAGE_SCN_LNK_REMOVE: PE.loadsegment raises
             return
         ck.count("pe.loaded")
         base = top - (top & (ps - 1))
         loadable = O.pe_loadable(p, (base - p.stack_reserve, base))
         ck.count("pe.loadable" if loadable else "pe.not-loadable")
+        # the headers (SizeOfHeaders bytes at ImageBase) are part of the image the Windows loader maps; amoco's OS loaders
+        # map sections only.  Observable when the entry point lies in the headers (no section holds it):
+        erva = p.entry_rva
+        if erva < p.size_headers and not any(s["rva"] <= erva < s["rva"] + max(s["vsize"], s["rawsize"]) for s in p.sections) \
+                and erva < len(data):
+            w = L.window(p.base + erva, names)
+            want = data[erva:min(p.size_headers, erva + L.maxlen())]
+            if not (w and w[0] == "raw" and want.startswith(bytes.fromhex(w[1])) and w[1]):
+                self.violation("pe", "entry-in-headers-unmapped", loader,
+                               "%s: the entry point %#x lies in the PE headers (SizeOfHeaders %#x), which are not mapped: fetch gives %s, "
+                               "the file places %s there" % (loader, p.base + erva, p.size_headers, short(w, 60), want.hex()),
+                               dict(case, address=p.base + erva), w, None, want.hex(), "Amoco.Loader.Props.block_present")
         facts = O.pe_facts(data, p, ptr, list(dict(imports).items()))
         self.compare("pe", loader, case, L, names, model, ranges, fetch, facts, (p.base + p.entry_rva), 8 * ptr, loadable,
                      "Amoco.Loader.Props.pe_image")
@@ -329,6 +363,7 @@ class Runner(object):
             return
         ck.count("macho.loaded")
         names = R.Names()
+        self.ptr = 8
         top = 0x00007FFFFFFFFFFF
         # stack: LC_UNIXTHREAD → 2 pages; LC_MAIN with stacksize → stacksize
         stack = None
@@ -354,9 +389,9 @@ class Runner(object):
                 continue
             ranges.append([s["vmaddr"] - 3, min(max(s["vmsize"], s["filesize"]) + 6, RANGE_CAP)])
             if s["filesize"]:
-                fetch.append([s["vmaddr"] + r.randrange(0, s["filesize"]), 16])
+                fetch.append([s["vmaddr"] + r.randrange(0, s["filesize"]), L.maxlen()])
         entry = O.macho_entry(mm)
-        req = {"op": "load.macho", "cfg": {"ps": ps, "ptr": 8, "top": top, "aslr": False, "bare": False}, "file": data.hex(),
+        req = {"op": "load.macho", "fix": "repaired", "cfg": {"ps": ps, "ptr": 8, "top": top, "aslr": False, "bare": False}, "file": data.hex(),
                "segs": [[s["vmaddr"], s["vmsize"], s["fileoff"], s["filesize"], s["name"].startswith(b"__PAGEZERO\0")] for s in mm.segs],
                "stack": stack, "slots": [[a, names.id(nm)] for a, nm in slots], "entry": entry or 0, "ranges": ranges, "fetch": fetch}
         model = drv.ask(req)
@@ -403,15 +438,15 @@ class Runner(object):
         hi = max(a + len(b) for a, b in recs) if recs else 0
         ranges = [[lo - 3, min(hi - lo + 6, RANGE_CAP)]]
         r = rng("C15/fetch/%s" % tag)
-        fetch = [[a + r.randrange(0, len(b)), 16] for a, b in recs[:4] if b]
-        req = {"op": "load.records", "records": [[a, b.hex()] for a, b in recs], "entry": entry, "pcbits": 32,
+        fetch = [[a + r.randrange(0, len(b)), L.maxlen()] for a, b in recs[:6] if b]
+        req = {"op": "load.records", "fix": "repaired", "records": [[a, b.hex()] for a, b in recs], "entry": entry, "pcbits": 32,
                "ranges": ranges, "fetch": fetch}
         model = drv.ask(req)
         if model == "unmodelled" or "err" in model:
             self.broken("driver:" + fmt, case, None, model, "driver")
             return
         ck.count("%s.loaded" % fmt)
-        loader = "raw" + (":start-%s" % aspect_entry if aspect_entry else "")
+        loader = {"seg": "start-segment-address", "lin": "start-linear-address"}.get(aspect_entry, "raw")
         self.compare(fmt, loader, case, L, names, model, ranges, fetch, O.records_facts(recs), entry, 32,
                      all(len(b) for a, b in recs), "Amoco.Loader.Props.records_image", later_wins=True)
         overl = any(a1 < a2 + len(b2) and a2 < a1 + len(b1) for i, (a1, b1) in enumerate(recs) for (a2, b2) in recs[:i])
